@@ -27,7 +27,7 @@ ASSUMPTIONS = [
     "T10 text is demanded (case-insensitive substring) only for the ~150 well-known codes in t10/sense.py and the 15 named sense keys",
     "for response codes outside 70h-73h only 'does not raise' is demanded",
 ]
-REQUIRED_PROBES = ["reinspected", "print_data_option", "decoded_ok", "text_ok", "rc_deferred", "rc_unknown", "short_buffer", "long_sense_iscsi", "empty_sense_iscsi", "command_object_reused", "through_facade"]
+REQUIRED_PROBES = ["reinspected", "print_data_option", "decoded_ok", "text_ok", "rc_deferred", "rc_unknown", "short_buffer", "long_sense_iscsi", "empty_sense_iscsi", "command_object_reused", "through_facade", "sense_buffer_reused", "error_copied", "first_look_later"]
 
 RCS = [0x70, 0x71, 0x72, 0x73]
 
@@ -96,11 +96,15 @@ def generate(rng, idx, tier):
             ops[-1]["reuse"] = True          # the command object of the previous failure on this transport is executed again (retry loop)
         elif r < 0.5:
             ops[-1]["facade"] = True         # the command goes through the facade (SCSI.testunitready), as applications do
+        if rng.random() < 0.2:
+            ops[-1]["defer"] = True
         if rng.random() < 0.03:
             # CHECK CONDITION whose sense buffer is present but empty (the iSCSI binding hands over zero bytes; the SG_IO binding
             # reports an unspecified error in that case, which is C07's)
             ops[-1].update(sense="", transport="iscsi")
-    return {"property": ID, "config": {"iscsi_sense_bytearray": rng.random() < 0.5}, "ops": ops}
+    return {"property": ID, "config": {"iscsi_sense_bytearray": rng.random() < 0.5,
+                                       # the binding keeps one sense buffer and overwrites it with every failure
+                                       "reuse_sense_buffer": rng.random() < 0.3}, "ops": ops}
 
 
 def _keys(tier):
@@ -191,7 +195,7 @@ LAST_CMD = {}
 FACADES = {}
 
 
-def one(dev, sense, raw, where, V, reuse=False, facade=False):
+def one(dev, sense, raw, where, V, reuse=False, facade=False, defer=False):
     from pyscsi.pyscsi.scsi_cdb_testunitready import TestUnitReady
     if reuse and LAST_CMD.get(where) is not None:
         cmd = LAST_CMD[where]
@@ -231,6 +235,11 @@ def one(dev, sense, raw, where, V, reuse=False, facade=False):
         V.append(dict(oracle="C08.construct-raises", where=where, detail="rc=%s/%s" % ("%#04x" % rc if rc in RCS else "other", type(val).__name__),
                       expected="a CheckCondition for sense %s" % handed.hex(), actual=repr(val)[:120]))
         return
+    if defer and len(KEPT) < 24:
+        # the application only stores this error now (a log of failures) and looks at it after further commands failed
+        WORLD.probe("first_look_later")
+        KEPT.append((val, handed, where))
+        return
     judge(val, handed, where, V)
     if len(KEPT) < 24:
         KEPT.append((val, handed, where))
@@ -238,16 +247,38 @@ def one(dev, sense, raw, where, V, reuse=False, facade=False):
     if handed and (handed[0] & 0x7F) in RCS and (len(handed) % 3) == 0 and isinstance(cc_cls, type):
         import contextlib
         WORLD.probe("print_data_option")
-        with contextlib.redirect_stdout(io.StringIO()):
+        cap = io.StringIO()
+        with contextlib.redirect_stdout(cap):
             k2, v2 = worlds.outcome_of(lambda: str(cc_cls(handed, True)))
         if k2 == "exc":
             V.append(dict(oracle="C08.str-raises", where=where, detail="print_data/%s" % type(v2).__name__,
                           expected="str() of CheckCondition(sense, print_data=True) returns text for sense %s" % handed.hex(), actual=repr(v2)[:120]))
+        elif not cap.getvalue().strip():
+            V.append(dict(oracle="C08.print-elsewhere", where=where, detail="print_data",
+                          expected="the decoded fields are printed to the standard output in effect when the error is converted to text",
+                          actual="nothing arrived at sys.stdout"))
+    # errors travel (logging, queues between threads, re-raising elsewhere): a shallow copy is the same error
+    if (len(handed) % 5) == 0 and kind == "exc" and hasattr(val, "asc"):
+        import copy as _copy
+        WORLD.probe("error_copied")
+        k4, v4 = worlds.outcome_of(lambda: _copy.copy(val))
+        if k4 == "exc":
+            V.append(dict(oracle="C08.copy-raises", where=where, detail=type(v4).__name__,
+                          expected="copy.copy(error) gives an equal error (sense %s)" % handed.hex(), actual=repr(v4)[:120]))
+        else:
+            k5, v5 = worlds.outcome_of(lambda: (str(v4), v4.asc, v4.ascq))
+            k6, v6 = worlds.outcome_of(lambda: (str(val), val.asc, val.ascq))
+            if k6 == "ok" and (k5 == "exc" or v5 != v6):
+                V.append(dict(oracle="C08.copy-differs", where=where, detail="copy",
+                              expected="the copy prints and reports like the original: %r" % (v6[1:],), actual=repr(v5)[:120]))
 
 
 def execute(prog):
     WORLD.reset()
     WORLD.flags["iscsi_sense_bytearray"] = bool(prog["config"].get("iscsi_sense_bytearray"))
+    WORLD.flags["reuse_sense_buffer"] = bool(prog["config"].get("reuse_sense_buffer"))
+    if WORLD.flags["reuse_sense_buffer"]:
+        WORLD.probe("sense_buffer_reused")
     cfg = F.default_cfg(F.BLOCK)
     devs = {t: worlds.open_device(t, worlds.make_lu(cfg, ident=n + 1)) for n, t in enumerate(("sgio", "iscsi"))}
     V = []
@@ -272,7 +303,7 @@ def execute(prog):
                 break
     for i, op in enumerate(prog["ops"]):
         WORLD.ev("op", i=i, transport=op["transport"])
-        one(devs[op["transport"]], bytes.fromhex(op["sense"]), op.get("raw", False), op["transport"], V, reuse=op.get("reuse", False), facade=op.get("facade", False))
+        one(devs[op["transport"]], bytes.fromhex(op["sense"]), op.get("raw", False), op["transport"], V, reuse=op.get("reuse", False), facade=op.get("facade", False), defer=op.get("defer", False))
         n += 1
     # errors collected earlier must still say what they said: later errors must not change them
     V2 = []
